@@ -474,8 +474,8 @@ META = {
              "is 'confirmed'. "
              "(ii) f_* obligations, solver-driven path exploration under a CPU budget (not exhaustive): the real TestFactory over the "
              "real test cluster of corpus/C15_sut.py applied to 13 base test cases built by the same factory, with every random draw "
-             "taken from explicit symbolic tape cells (<= 6, then a fixed draw): insert_random_statement at a symbolic position, three "
-             "insertions from the empty test case, graceful deletion (exhaustive), change_statement_type / mutate_value / mutate_call / "
+             "taken from explicit symbolic tape cells (10-16 per operation, then a fixed draw): insert_random_statement of each of the "
+             "14 accessible objects at a symbolic position, three insertions from the empty test case, graceful deletion (exhaustive), change_statement_type / mutate_value / mutate_call / "
              "change_random_call / change_random_field_call at a symbolic position, TestCaseMutation.mutate and ._mutation_insert with "
              "symbolic chromosome_length and last-exception position, SinglePointRelativeCrossOver.cross_over and "
              "TestCaseChromosome.cross_over between two bases, TestSuiteMutation.mutate on a suite of two bases, and histories of two "
@@ -508,24 +508,27 @@ META = {
         "structural_pair": "a: <= 3 binding statements (statement 1 may read statement 0), 3 type patterns, 2 numbering/spare-name variants; "
                            "b: <= 3 statements (quick <= 2), statement 1 binds or not, every read relation, 4 type patterns incl. None, 2 numberings; "
                            "all k / (p1, p2); chromosome_length 1..|a|+|b|+1; all outcomes of <= 2 candidate choices among <= 3 candidates",
-        "factory_bases": "13 test cases built by the real factory from seeded real randomness (sizes 0..8): empty, lone int literal (left over by a "
-                         "graceful deletion), enum, int+constructor+method, constructor+property+constructor, int+list+function, constructor+class field+"
-                         "function, lambda+function, class literal+constructor+method, constructor+method+enum, constructor+function with float parameter, "
-                         "6 statements incl. a set literal, 8 statements built without reuse",
-        "tape": "<= 6 symbolic cells in [0, 1000) (history/build: 3 resp. 2 per operation), then a fixed draw from {0.5, 0.12, 0.93} (selector tail); "
-                "random() = cell/1000 symbolic; choice/randrange over <= 16 values complete, wider ranges through 8 spread values; gauss from 8 values; "
-                "printable characters from 8 (incl. both quotes, backslash, newline)",
+        "factory_bases": "13 test cases built by the real factory from seeded real randomness (sizes 0..8; for each wanted call shape the smallest "
+                         "product of seeds 0..299): empty; lone int literal (left over by a graceful deletion); enum; int+constructor+method; "
+                         "constructor+property+method; int+list+function; constructor+class field+function; function reference+un-annotated "
+                         "function+invocation of its result; lambda+constructor+method; positional/**kwargs call; int+dict+function; 6 statements "
+                         "with lambda, tuple and dict arguments; 8 statements built without reuse",
+        "tape": "symbolic int cells used modulo 1000 (insert 16, mutate/suite 12, change 10, crossover 3, history 3 and build 2 per operation), "
+                "then a fixed draw from {0.5, 0.12, 0.93} (selector tail); random() = cell/1000 symbolic; choice/randrange over <= 16 values "
+                "complete, wider ranges through 8 spread values; gauss from 8 values; printable characters from 8 (incl. both quotes, "
+                "backslash, newline); positions / split points / exception positions are taken modulo the admissible range",
         "configuration": "defaults of pynguin.configuration except max_recursion 4, collection_size 3, string/bytes_length 3, max_size 4, "
                          "generate_field_statements on; reuse 0: default reuse probabilities, 1: no reuse; chromosome_length symbolic in [1, 12] "
                          "(48 where no length is asserted)",
-        "subject": "corpus/C15_sut.py analysed by the real generate_test_cluster: 2 classes (constructor with class-typed + defaulted parameter, methods "
-                   "with int/float/enum/untyped parameters and defaults, a property, class-level int and list fields), an enum, 4 functions "
-                   "(float default + keyword-only bool, list[int], bare list, list[Wheel] result)",
+        "subject": "corpus/C15_sut.py analysed by the real generate_test_cluster (14 accessible objects): 2 classes (constructor with class-typed + "
+                   "defaulted parameter, methods with int/float/enum/untyped parameters and defaults, a property, class-level int and list fields), "
+                   "an enum, 7 functions (float default + keyword-only bool; list[int]; bare list + untyped; list[Wheel] result; positional-only + "
+                   "default + *args + keyword-only + **kwargs; dict/tuple/set parameters; un-annotated parameters and result)",
     },
     "outside": ["local search, LLM paths (deserialised / LLM-written test cases), ML-specific statements and MLTestFactory",
                 "test cases longer than 4 (structural layer) / other than the 13 bases (factory layer); compound statements; multiple assignment targets",
                 "draw sequences beyond the symbolic cells; the factory layer is path exploration under a budget, not exhaustive",
-                "test clusters other than the one of corpus/C15_sut.py (generics, inheritance, *args/**kwargs, positional-only parameters, callable-typed parameters)",
+                "test clusters other than the one of corpus/C15_sut.py (user generics, inheritance, Callable-/type-annotated parameters, several modules)",
                 "assertions travelling through crossover (recorded known finding) and through the factory's change operations",
                 "whether the generated test cases execute without error; fitness/coverage caches themselves (C12)",
                 "length of test cases produced by RandomLengthTestCaseFactory / TestSuiteMutation's new tests"],
@@ -549,7 +552,7 @@ def obligations(tier: str):
 
     q = tier == "quick"
     T = 150 if q else 900  # structural obligations end 'confirmed' long before
-    E = 35 if q else 240  # exploration budget (CPU-s) per obligation
+    E = 35 if q else 220  # exploration budget (CPU-s) per obligation
     obs = []
     # ---------------- layer (i): exhaustive
     obs.append(Chx("s_remove", h_s_remove, timeout=T, fix={"nmax": 3}, split={"how": [0, 1, 2, 3, 4]}))
@@ -581,13 +584,15 @@ def obligations(tier: str):
     obs.append(Chx("f_mutins_wf", h_f_mutins, timeout=E, fix={"check": 0}))
     obs.append(Chx("f_mutins_len", h_f_mutins, timeout=E // 3, fix={"check": 1}))
     obs.append(Chx("f_crossover_wf", h_f_crossover, timeout=E, fix={"check": 0}))
-    obs.append(Chx("f_crossover_len", h_f_crossover, timeout=E // 3, fix={"check": 1}))
+    if not q:
+        # (the relative single-point crossover cannot exceed max(|a|, |b|); arbitrary split points are in f_splice / s_splice)
+        obs.append(Chx("f_crossover_len", h_f_crossover, timeout=E // 3, fix={"check": 1}))
     obs.append(Chx("f_splice", h_f_splice, timeout=E))
     obs.append(Chx("f_suite", h_f_suite, timeout=E * 3 // 4, split={"reuse": [0, 1]}))
     obs.append(Chx("f_history", h_f_history, timeout=E, split={"reuse": [0, 1]}))
     if not q:
         # more processes on the widest spaces
-        obs.append(Chx("f_change_t", h_f_change, timeout=E, split={"op": [0, 2, 3], "tail": [0, 1, 2]}))
+        obs.append(Chx("f_change_t", h_f_change, timeout=E, split={"op": [0, 3], "tail": [0, 1, 2]}))
         obs.append(Chx("f_history_o", h_f_history, timeout=E, split={"o1": [0, 1, 2, 3, 4, 5, 6]}))
         obs.append(Chx("f_mutate_wf_t", h_f_mutate, timeout=E, fix={"check": 0}, split={"tail": [0, 1, 2]}))
         obs.append(Chx("f_mutate_flag_t", h_f_mutate, timeout=E, fix={"check": 1}, split={"tail": [0, 1, 2]}))
